@@ -17,6 +17,8 @@ def run(ctx):
     # closed pipe on the real binary
     res2 = ctx.drv("closed-pipe", outfile=ctx.scratch + "/pipe_mm.ndjson", env_extra={"VERIF_BIN": ctx.build_binary()})
     ctx.add("evaluations", res2["runs"])
+    if ctx.tier == "thorough":
+        vlib.vacuity_check(ctx, "Sink.tla", "MC_Sink.cfg", expect_zero=())
     return vlib.finish(
         ctx, "fault_enumeration",
         rule="Sink.tla (bufio buffer of 4 over a sink failing from every offset, reporters that check / ignore write errors, both flush "
